@@ -6,12 +6,17 @@ and resolving labels into addresses while writing the result with the fjm Writer
 """
 
 import dataclasses
+import sys
 from collections import defaultdict
 from pathlib import Path
 from typing import Deque, List, Dict, Tuple, Optional
 
 from flipjump.fjm.fjm_writer import Writer
-from flipjump.utils.constants import WFLIP_LABEL_PREFIX, DEFAULT_MAX_MACRO_RECURSION_DEPTH
+from flipjump.utils.constants import (
+    WFLIP_LABEL_PREFIX,
+    DEFAULT_MAX_MACRO_RECURSION_DEPTH,
+    GAP_BETWEEN_PYTHONS_AND_PREPROCESSOR_MACRO_RECURSION_DEPTH,
+)
 from flipjump.utils.functions import save_debugging_labels
 from flipjump.utils.classes import PrintTimer
 from flipjump.assembler.fj_parser import parse_macro_tree
@@ -264,7 +269,12 @@ def assemble(
     :param max_recursion_depth: The compiler supports macros that recursively uses other macros,
     up to the specified recursion depth.
     """
+    callers_recursion_limit = sys.getrecursionlimit()
     try:
+        # the parser recurses as well (deep expressions). it runs under the same python recursion-limit as the preprocessor
+        #  (which sets it too), and not under whatever limit an earlier assemble() call has left behind.
+        sys.setrecursionlimit(max_recursion_depth + GAP_BETWEEN_PYTHONS_AND_PREPROCESSOR_MACRO_RECURSION_DEPTH)
+
         with PrintTimer('  parsing:         ', print_time=print_time):
             macros = parse_macro_tree(input_files, memory_width, warning_as_errors)
 
@@ -293,3 +303,5 @@ def assemble(
         raise FlipJumpAssemblerException(
             "Unknown exception during assembling the .fj files, please report this bug"
         ) from unknown_exception
+    finally:
+        sys.setrecursionlimit(callers_recursion_limit)
